@@ -11,7 +11,6 @@ import (
 	"sigs.k8s.io/controller-runtime/pkg/client"
 
 	v1 "sigs.k8s.io/karpenter/pkg/apis/v1"
-	nodeclaimdisruption "sigs.k8s.io/karpenter/pkg/controllers/nodeclaim/disruption"
 	"sigs.k8s.io/karpenter/pkg/test"
 	disruptionutils "sigs.k8s.io/karpenter/pkg/utils/disruption"
 	"sigs.k8s.io/karpenter/pkg/utils/pdb"
@@ -268,6 +267,7 @@ type ConsIn struct {
 	Now   int64   `json:"now"`
 	Pool  PoolIn  `json:"pool"`
 	Claim ClaimIn `json:"claim"`
+	Fault *RFault `json:"fault,omitempty"` // faults injected into the run (drift check / NodePool read / status patch)
 }
 
 type ConsOut struct {
@@ -296,24 +296,21 @@ func implConsolidatable(raw json.RawMessage) (any, error) {
 		objs = append(objs, np)
 	}
 	c := newClient(objs...)
-	cloud := newCloud(true)
-	if in.Claim.Drifted == "True" {
-		cloud.Drifted = "CloudProviderDrifted"
-	}
-	ctx := baseCtx(0)
-	ctrl := nodeclaimdisruption.NewController(clocktesting.NewFakeClock(at(in.Now)), c, cloud)
-	got := &v1.NodeClaim{}
-	if err := c.Get(ctx, client.ObjectKey{Name: claimName}, got); err != nil {
-		return nil, err
-	}
-	if _, err := ctrl.Reconcile(ctx, got); err != nil {
-		return nil, fmt.Errorf("reconcile: %w", err)
-	}
-	after := &v1.NodeClaim{}
-	if err := c.Get(ctx, client.ObjectKey{Name: claimName}, after); err != nil {
+	after, err := runClaimController(baseCtx(0), clocktesting.NewFakeClock(at(in.Now)), c, newCloud(true), in.Claim.Drifted == "True", in.Fault)
+	if err != nil {
 		return nil, err
 	}
 	return ConsOut{Consolidatable: condStatus(after, v1.ConditionTypeConsolidatable)}, nil
+}
+
+// consFaults: every fault position of one run of the controller, each kind alone, plus the drift check failing
+// together with each of the other two positions.
+var consFaults = []*RFault{
+	nil,
+	{Drift: "isDrifted"}, {Drift: "notFound"}, {Drift: "instanceTypes"},
+	{PoolGet: "error"},
+	{Patch: "conflict"}, {Patch: "notFound"}, {Patch: "error"},
+	{Drift: "isDrifted", Patch: "error"}, {Drift: "instanceTypes", PoolGet: "error"},
 }
 
 func enumConsolidatable(core.Tier) []any {
@@ -353,7 +350,14 @@ func enumConsolidatable(core.Tier) []any {
 							case 4:
 								in.Pool.Exists = false
 							}
-							out = append(out, in)
+							for _, f := range consFaults {
+								if f != nil && variant > 1 {
+									continue // faults: on the dynamic and the static pool
+								}
+								c := in
+								c.Fault = f
+								out = append(out, c)
+							}
 						}
 					}
 				}
@@ -390,13 +394,16 @@ func genConsolidatable(r *rand.Rand, _ core.Tier) any {
 	} else {
 		in.Claim.InitAt = t
 	}
+	if r.IntN(2) == 0 {
+		in.Fault = genFault(r)
+	}
 	return in
 }
 
 func consLabels(raw json.RawMessage, out any) []string {
 	var in ConsIn
 	_ = json.Unmarshal(raw, &in)
-	l := []string{"before=" + in.Claim.Consolidatable, "initialized=" + in.Claim.Initialized}
+	l := []string{"before=" + in.Claim.Consolidatable, "initialized=" + in.Claim.Initialized, "fault:" + in.Fault.label()}
 	switch {
 	case in.Pool.ConsolidateAfter == nil:
 		l = append(l, "consolidateAfter=Never")
@@ -502,7 +509,7 @@ func leafOps() []*core.Op {
 		},
 		{
 			Name: "c07.consolidatable",
-			Doc:  "the real nodeclaim.disruption Controller.Reconcile (Drift + Consolidation sub-reconcilers) on a NodeClaim + NodePool on the fake client; the persisted Consolidatable condition",
+			Doc:  "the real nodeclaim.disruption Controller.Reconcile (Drift + Consolidation sub-reconcilers) on a NodeClaim + NodePool on the fake client, with faults injected at its external calls (cloud provider IsDrifted / GetInstanceTypes erroring, NodePool read failing, status patch refused); the persisted Consolidatable condition",
 			N: func(t core.Tier) int {
 				if t == core.Thorough {
 					return 8000
@@ -512,7 +519,7 @@ func leafOps() []*core.Op {
 			Gen:            genConsolidatable,
 			Enum:           enumConsolidatable,
 			Impl:           implConsolidatable,
-			Rule:           "exhaustive: consolidateAfter Never/0/positive x Initialized absent/True/False/Unknown x with/without lastPodEventTime x clock at consolidateAfter -1ns/0/+1ns x previous condition absent/True/False/Unknown x {dynamic, static pool, deleting NodeClaim, no nodepool label, missing NodePool}; plus random cases. non-trivial = the sub-reconciler runs (live NodeClaim of an existing dynamic pool)",
+			Rule:           "exhaustive: consolidateAfter Never/0/positive x Initialized absent/True/False/Unknown x with/without lastPodEventTime x clock at consolidateAfter -1ns/0/+1ns x previous condition absent/True/False/Unknown x {dynamic, static pool, deleting NodeClaim, no nodepool label, missing NodePool}; the dynamic and static columns again under each of 9 fault settings (IsDrifted error, NodeClaimNotFound from IsDrifted, GetInstanceTypes error on a NodeClaim older than 1h, NodePool read error, status patch conflict / not found / server error, drift+patch, drift+pool read); plus random cases (half of them with a fault: 60% drift check, 10% pool read, 20% patch, 10% two). non-trivial = the sub-reconciler runs (live NodeClaim of an existing dynamic pool)",
 			ExhaustiveNote: "condition maintenance matrix (see rule)",
 			Nontrivial: func(raw json.RawMessage, _ any) bool {
 				var in ConsIn
